@@ -504,6 +504,15 @@ Definition oq (o : nat) : oquery := {| o_size := size; o_asc := asc; o_offset :=
 Lemma osorted_length : length osorted = length ks.
 Proof. apply sort_length. Qed.
 
+Lemma skipz_skipn : forall n (l : list Z), skipz (Z.of_nat n) l = skipn n l.
+Proof.
+  induction n as [|n IH]; intros l.
+  - destruct l; reflexivity.
+  - destruct l as [|x r]; [reflexivity|]. simpl skipn. unfold skipz; fold skipz.
+    replace (0 <? Z.of_nat (S n)) with true by (symmetry; apply Z.ltb_lt; lia).
+    replace (Z.of_nat (S n) - 1) with (Z.of_nat n) by lia. apply IH.
+Qed.
+
 Lemma ofetch_at : forall o, Z.of_nat o <= max_int32 ->
   ofetch ks (oq o) = Some (firstn (S size) (skipn o osorted)).
 Proof.
@@ -515,7 +524,7 @@ Proof.
   destruct o as [|o'].
   - reflexivity.
   - replace (0 <? Z.of_nat (S o')) with true by (symmetry; apply Z.ltb_lt; lia).
-    rewrite Nat2Z.id. reflexivity.
+    rewrite skipz_skipn. reflexivity.
 Qed.
 
 Lemma oprev_eq : forall o,
